@@ -6,6 +6,7 @@ import (
 	"math"
 	mathrand "math/rand"
 	"sort"
+	"strconv"
 
 	"github.com/LindsayBradford/crem/internal/pkg/annealing/cooling/coolants/kirkpatrick"
 	"github.com/LindsayBradford/crem/internal/pkg/annealing/explorer"
@@ -246,6 +247,9 @@ func c04NewRig(dir int, t0, cf float64, m model.Model, calls *c04Calls, objectiv
 
 func c04Bits(f float64) uint64 { return math.Float64bits(f) }
 
+// readable text of a float for the replay file (JSON has no NaN/Inf); the exact value is in *_bits
+func c04G(f float64) string { return strconv.FormatFloat(f, 'g', -1, 64) }
+
 var c04stats = map[string]int{}
 var c04oracles = 0
 var c04emitted = map[string]int{}
@@ -423,13 +427,13 @@ func (r *c04Rig) step(valid bool, change float64, k int64, cool bool, ukind stri
 		if c04emitted[r.class+cause] < 6 {
 			c04emitted[r.class+cause]++
 			emit(J{"kind": "oracle", "what": why[0], "all": why, "reasons": len(why), "cause": cause, "class": r.class,
-				"previous_proposal_accepted": prevAccepted, "objective_moved_by": objAfter - objBefore,
+				"previous_proposal_accepted": prevAccepted, "objective_moved_by": c04G(objAfter - objBefore),
 				"moved_by_minus_reported_change": objAfter-objBefore == -change,
-				"direction": c04DirName(r.dir), "valid": valid, "change": change, "change_bits": c04Bits(change),
-				"temperature": tBefore, "temperature_bits": c04Bits(tBefore), "draw": u, "draw_bits": c04Bits(u), "source_int63": k,
-				"expected_accept": wantAccept, "expected_probability": wantP, "expected_objective": wantObj,
-				"got_calls": calls, "got_event": dec, "got_probability": prob, "got_probability_bits": c04Bits(prob),
-				"objective_before": objBefore, "objective_after": objAfter, "step_index": len(r.steps) - 1})
+				"direction": c04DirName(r.dir), "valid": valid, "change": c04G(change), "change_bits": c04Bits(change),
+				"temperature": c04G(tBefore), "temperature_bits": c04Bits(tBefore), "draw": c04G(u), "draw_bits": c04Bits(u), "source_int63": k,
+				"expected_accept": wantAccept, "expected_probability": c04G(wantP), "expected_objective": c04G(wantObj),
+				"got_calls": calls, "got_event": dec, "got_probability": c04G(prob), "got_probability_bits": c04Bits(prob),
+				"objective_before": c04G(objBefore), "objective_after": c04G(objAfter), "step_index": len(r.steps) - 1})
 		}
 	}
 }
@@ -616,7 +620,7 @@ func runC04(args []string) {
 	p := newPrng(0xC04)
 	reps := 1
 	if tier == "thorough" {
-		reps = 12
+		reps = 30
 	}
 	cfs := []float64{1, 0.95, 0.999, 0.5, 0.9}
 	// ---- inside the quantifier: configured direction, positive temperature ----
@@ -634,7 +638,7 @@ func runC04(args []string) {
 	}
 	liveN := 150
 	if tier == "thorough" {
-		liveN = 1500
+		liveN = 4000
 	}
 	for _, dir := range []int{c04Min, c04Max} {
 		for _, T := range []float64{0.4, 1.5, 8} {
